@@ -48,6 +48,15 @@ var cliHarness = boundedHarness{prop: "C15", subject: "main.commands", pos: "cmd
 var fastaHarness = boundedHarness{prop: "C17", subject: "seqio.FastaParser", pos: "seqio/fasta.go", file: "fasta_bounded_test.go", pkgDir: "seqio", test: "TestVerifBoundedFasta",
 	clauses: []string{"fasta-writes", "layout-70-columns", "roundtrip-lf", "roundtrip-crlf", "genbank-to-fasta"}}
 
+var genbankHarness = boundedHarness{prop: "C01", subject: "seqio.GenBankParser", pos: "seqio/genbank.go", file: "genbank_bounded_test.go", pkgDir: "seqio", test: "TestVerifBoundedGenBank",
+	clauses: []string{"record-writes", "written-record-parses", "residues-kept", "features-kept", "header-kept", "write-read-write-fixed-point", "stream-framed-independently", "corpus-declared-length"},
+	labels: [][2]string{
+		{"features-kept", "embedded-quote"},
+		{"write-read-write-fixed-point", "embedded-quote"},
+		{"written-record-parses", "embedded-quote"},
+		{"record-writes", "empty-region"},
+	}}
+
 func (e *Engine) runBounded(h boundedHarness, repo, verif, tier string, seed int) ([]*Obligation, map[string]interface{}) {
 	info := map[string]interface{}{}
 	src := filepath.Join(verif, "bounded", h.file)
